@@ -40,7 +40,15 @@ def cfg_of(prog):
 
 def _spec_tla(sp):
     return {'name': sp['name'], 'ch': sp.get('ch') or '', 'prio': sp.get('prio', 0), 'flags': sp.get('flags', 0),
-            'on': sp.get('on', 0) or 0}
+            'on': sp.get('on', 0) or 0, 'byname': bool(sp.get('byname', False))}
+
+
+def _code_id(code):
+    if code is None:
+        return -1
+    if isinstance(code, int) and not isinstance(code, bool) and code >= 0:
+        return code
+    return -2
 
 
 def _op_tla(op):
@@ -48,6 +56,12 @@ def _op_tla(op):
         return ['fire', _spec_tla(op[1])]
     if op[0] == 'ret':
         return ['ret', op[1] or 0]
+    if op[0] in ('call', 'wait'):
+        return [op[0], _spec_tla(op[1])]
+    if op[0] == 'yield':
+        return ['yield', op[1] or 0]
+    if op[0] in ('exit', 'stopmgr', 'stop2'):
+        return [op[0], _code_id(op[1] if len(op) > 1 else None)]
     return list(op)
 
 
@@ -83,6 +97,11 @@ def write_cfg(workdir, name, invariants, view=True, variants=None, monitor=True)
     lines = ['SPECIFICATION Spec', 'CONSTANTS', '  Programs <- ProgramsDef',
              '  StaleCache = %s' % ('TRUE' if variants.get('StaleCache') else 'FALSE'),
              '  CancelLeak = %s' % ('TRUE' if variants.get('CancelLeak') else 'FALSE'),
+             '  ExitDeferred = %s' % ('TRUE' if variants.get('ExitDeferred') else 'FALSE'),
+             '  StepUntracked = %s' % ('TRUE' if variants.get('StepUntracked') else 'FALSE'),
+             '  GenErrorHang = %s' % ('TRUE' if variants.get('GenErrorHang') else 'FALSE'),
+             '  SuccessNoErr = %s' % ('TRUE' if variants.get('SuccessNoErr') else 'FALSE'),
+             '  DetTasks = %s' % ('FALSE' if view else 'TRUE'),
              '  KeepOut = %s' % ('FALSE' if view else 'TRUE'),
              '  RunMonitor = %s' % ('TRUE' if monitor else 'FALSE')]
     for inv in invariants:
@@ -105,8 +124,10 @@ def to_history(hist):
             out.append(['fire', op[1], op[2]])      # spec index resolved by the caller
         elif k == 'reg':
             out.append(['reg', op[1], op[2]])
-        elif k in ('unreg', 'addh', 'rmh', 'flush', 'cancel'):
+        elif k in ('unreg', 'addh', 'rmh', 'flush', 'cancel', 'stop', 'tick'):
             out.append([k, op[1]])
+        elif k == 'run':
+            out.append(['run', op[1], 3])
         elif k == 'quiesce':
             pass
     return out
@@ -134,8 +155,8 @@ def norm_line(ln):
 # ---------------------------------------------------------------------------
 # pipeline
 
-ALL_INVARIANTS = ['ConformsC01', 'ConformsC02', 'ConformsC04', 'ConformsC05', 'ConformsC07', 'ConformsM',
-                  'QueueOnlyAtRoots', 'CacheCoherent', 'EffectsNonNegative', 'CompleteDelivered']
+ALL_INVARIANTS = ['ConformsC01', 'ConformsC02', 'ConformsC04', 'ConformsC05', 'ConformsC06', 'ConformsC07', 'ConformsC08', 'ConformsM',
+                  'QueueOnlyAtRoots', 'CacheCoherent', 'EffectsNonNegative', 'CompleteDelivered', 'NoTaskResidue']
 LINE_KEYS = ('k', 'e', 'h', 'c', 'n', 'ch', 'p', 'o', 'x', 'y', 'v', 'f', 'd')
 
 
@@ -164,14 +185,14 @@ def model_check(programs, invariants=None, variants=None, workers=4, timeout=150
         shutil.rmtree(wd, ignore_errors=True)
 
 
-def generate_histories(programs, workers=4, timeout=1500, name='HIST_K'):
+def generate_histories(programs, workers=4, timeout=1500, name='HIST_K', variants=None):
     """All complete environment histories (ending in quiesce) of the model for
     the given programs, with the lines the model emits: [(prog_id, hist, lines)]."""
     wd = tlc.workdir('khist')
     try:
         _number(programs)
         write_mc_module(wd, name, programs)
-        write_cfg(wd, name, ['ReportHist'], view=False, monitor=False)
+        write_cfg(wd, name, ['ReportHist'], view=False, monitor=False, variants=variants)
         res = tlc.run_tlc(wd, name, name + '.cfg', workers=workers, timeout=timeout, jvm_opts=('-Xmx8g',))
         if res.violated or res.rc != 0:
             raise tlc.MachineryError('history generation failed: %s\n%s' % (res.violated, res.out[-2000:]))
